@@ -27,11 +27,14 @@ REQUIRED_THEOREMS += ["begin_scope_skeleton", "end_scope_skeleton", "end_scope_u
                       "break_discards_before_jumping"]
 # the state the models abstract is all the state there is: the fields of the run-time structures, regenerated on every run, are the ones
 # the models were written against (Props/StateInventory)
-THEOREM_MODULES.append("Yarel.Props.StateInventory")
+THEOREM_MODULES.append("Yarel.Props.StateInventory.state_of_closures")
 REQUIRED_THEOREMS += ['state_of_closures']
 # who writes the state the mechanism models are about: the set of write sites per group of fields, regenerated on every run (Props/StateWrites)
-THEOREM_MODULES.append("Yarel.Props.StateWrites")
+THEOREM_MODULES.append("Yarel.Props.StateWrites.writers_of_open_cells")
 REQUIRED_THEOREMS += ['writers_of_open_cells']
+# capture_upvalue / close_upvalues as written on this run (Props/GlueText): the text the cell mechanism model was written against
+THEOREM_MODULES.append("Yarel.Props.GlueText.C06")
+REQUIRED_THEOREMS += ['capture_upvalue_as_modelled', 'close_upvalues_as_modelled', 'close_upvalues_for_frame_as_modelled']
 LEVEL = "proof"
 ASSUMPTIONS = [
     "mechanism model Yarel/Model/Upvalues.lean transcribes capture_upvalue/close_upvalues (tie: replay of real capture/close events)",
